@@ -10,6 +10,10 @@ def main():
   from dst import overlay
   overlay.bootstrap("/repo")
   from paranoid_crypto.lib import paranoid  # noqa
+  from dst import selftest
+  if selftest.run_models() != 0:
+    print("setup: reference models disagree with their vectors")
+    return 2
   print("setup: ok (protobuf %s, numpy %s)" % (google.protobuf.__version__, numpy.__version__))
   return 0
 
